@@ -21,12 +21,27 @@
 (*            what the keys-hash field of the signed message is the        *)
 (*            SHA-256 of: the keys `pre`, in that order, each encoded      *)
 (*            uncompressed / compressed ("none": of nothing we know)       *)
-(*   ui       [exists, chain, hdr : "ok"|"foreign"|"sep", key]   (ledger)  *)
+(*   ui       [exists, chain, hdr : "ok"|"foreign"|"sep", key, ...] (ledger)*)
 (*   pow      [exists, chain, hdr : "current"|"legacy"|"foreign"|"sep"|    *)
-(*             "sepleg", len : "exact"|"short"|"long"]                     *)
+(*             "sepleg", ...]                                              *)
 (*            the signer element (ledger) / the quote's custom message     *)
 (*            (sgx).  exists: "t"/"f"; chain: "intact"/"broken" (does      *)
 (*            every link from this target up to the right root verify)     *)
+(*   both messages also carry HOW their bytes deviate from the documented  *)
+(*   layout - content included, because acceptance may depend on it        *)
+(*   (regex anchors, strip(), string terminators):                         *)
+(*     sepc  the character between the version digits: "dot" or a member   *)
+(*           of SepTable ("na" for a foreign header)                       *)
+(*     len   "exact" | "short" | "long"                                    *)
+(*     at    "none" | "cut" (n bytes missing at the end) |                 *)
+(*           "suffix" | "prefix" (n bytes added after / before the         *)
+(*           documented message)                                           *)
+(*     m     what was added: a member of ExtTable (fixed bytes), "rand1"   *)
+(*           (one byte that is none of the boundary bytes), "randn"        *)
+(*           (n >= 2 arbitrary bytes); "na" otherwise                      *)
+(*     n     number of bytes cut / added                                   *)
+(*     tail  "any", or a member of ExtTable: the documented-length message *)
+(*           ENDS with these bytes (a genuine message; must be accepted)   *)
 (* Symbolic cryptography (DESIGN 3.3): SHA-256 is an injective constructor *)
 (* - two hashes are equal iff encoding and key sequence are equal.         *)
 (*                                                                         *)
@@ -73,16 +88,22 @@ HashOk(inp) == inp.file.kind = "ok" /\ inp.file.ents # <<>> /\ inp.mh = Operator
 \* "on Ledger, the UI-attested BTC key equals the operator's"
 UiKeyOk(inp) == inp.file.kind = "ok" /\ inp.btc \in PathsOf(inp.file) /\ KeyAt(inp.file, inp.btc) = inp.ui.key
 
+\* Every signed message must be exactly as long as documented.  (For the UI message the command did not
+\* check this until "fix: refuse Ledger UI attestation messages that are not exactly the documented
+\* length": it printed an iteration / signer hash made up from a truncated message.)
+\* the message begins with the header h and is exactly as long as documented
+\* (bytes put in FRONT of a message displace its header: never acceptable)
 OkLedger(inp) == /\ Given(inp)
                 /\ ChainValid(inp, inp.ui) /\ ChainValid(inp, inp.pow)
-                /\ inp.ui.hdr = "ok"                       \* expected headers
-                /\ inp.pow.hdr \in {"current", "legacy"}
+                /\ inp.ui.hdr = "ok" /\ inp.ui.at # "prefix"        \* expected headers
+                /\ inp.pow.hdr \in {"current", "legacy"} /\ inp.pow.at # "prefix"
                 /\ inp.pow.len = "exact"                   \* exactly the documented length
+                /\ inp.ui.len = "exact"
                 /\ HashOk(inp)
                 /\ UiKeyOk(inp)
 OkSgx(inp)    == /\ Given(inp)
                 /\ ChainValid(inp, inp.pow)
-                /\ inp.pow.hdr = "current"
+                /\ inp.pow.hdr = "current" /\ inp.pow.at # "prefix"
                 /\ inp.pow.len = "exact"
                 /\ HashOk(inp)
 OkCondition(inp) == IF inp.plat = "ledger" THEN OkLedger(inp) ELSE OkSgx(inp)
@@ -186,21 +207,56 @@ PowHdrIs(c, m) == CASE c = "current" -> PowShape(m) /\ m[9] = Dot
                     [] c = "sepleg"  -> LegShape(m) /\ m[13] # Dot
                     [] c = "foreign" -> ~PowShape(m) /\ ~LegShape(m)
                     [] OTHER         -> FALSE
-LenIs(c, n, exact) == CASE c = "exact" -> n = exact
-                        [] c = "short" -> n < exact
-                        [] c = "long"  -> n > exact
-                        [] OTHER       -> FALSE
-PowLenIs(inp, m) == IF inp.pow.hdr \in {"legacy", "sepleg"} THEN LenIs(inp.pow.len, Len(m), LegLen)
-                   ELSE IF inp.pow.hdr \in {"current", "sep"} THEN LenIs(inp.pow.len, Len(m), PowLen)
-                   ELSE TRUE
+(***************************************************************************)
+(* Boundary members: byte strings on which acceptance might depend.        *)
+(***************************************************************************)
+ExtTable == [lf |-> <<10>>, cr |-> <<13>>, crlf |-> <<13, 10>>, lflf |-> <<10, 10>>, nul |-> <<0>>,
+             sp |-> <<32>>, tab |-> <<9>>, vt |-> <<11>>, ff |-> <<12>>, fs |-> <<28>>,
+             nel |-> <<133>>, nbsp |-> <<160>>]
+SepTable == [x |-> <<120>>, colon |-> <<58>>, dash |-> <<45>>, under |-> <<95>>, comma |-> <<44>>,
+             slash |-> <<47>>, zero |-> <<48>>, lf |-> <<10>>, cr |-> <<13>>, nul |-> <<0>>,
+             sp |-> <<32>>, tab |-> <<9>>, nel |-> <<133>>]
+BoundaryBytes == {10, 13, 0, 32, 9, 11, 12, 28, 133, 160}
+IsExt(m) == m \in DOMAIN ExtTable
+LastN(s, n) == SubSeq(s, Len(s) - n + 1, Len(s))
+
+\* the message without what was put in front of / after it
+Core(t, msg) == CASE t.at = "prefix" -> SubSeq(msg, t.n + 1, Len(msg))
+                  [] t.at = "suffix" -> SubSeq(msg, 1, Len(msg) - t.n)
+                  [] OTHER           -> msg
+Added(t, msg) == IF t.at = "prefix" THEN SubSeq(msg, 1, t.n) ELSE LastN(msg, t.n)
+\* the declared deviation of the length is what the bytes show; L = documented length (0: unknown)
+ExtIs(t, msg, L) ==
+    /\ t.len \in {"exact", "short", "long"} /\ t.at \in {"none", "cut", "suffix", "prefix"}
+    /\ t.at = "none" => t.len = "exact" /\ t.n = 0 /\ (L > 0 => Len(msg) = L)
+    /\ t.at = "cut"  => t.len = "short" /\ t.n >= 1 /\ (L > 0 => Len(msg) = L - t.n)
+    /\ t.at \in {"suffix", "prefix"} =>
+          /\ t.len = "long" /\ t.n >= 1 /\ Len(msg) > t.n /\ (L > 0 => Len(msg) = L + t.n)
+          /\ IsExt(t.m) => Added(t, msg) = ExtTable[t.m]
+          /\ t.m = "rand1" => t.n = 1 /\ Added(t, msg)[1] \notin BoundaryBytes
+          /\ t.m = "randn" => t.n >= 2
+          /\ IsExt(t.m) \/ t.m \in {"rand1", "randn"}
+    /\ t.tail # "any" => /\ t.at = "none" /\ IsExt(t.tail) /\ Len(msg) >= Len(ExtTable[t.tail])
+                         /\ LastN(msg, Len(ExtTable[t.tail])) = ExtTable[t.tail]
+SepIs(c, b) == IF c = "dot" THEN b = Dot ELSE c \in DOMAIN SepTable /\ SepTable[c] = <<b>> /\ b # Dot
+
+PowFormatLen(hdr) == IF hdr \in {"legacy", "sepleg"} THEN LegLen
+                     ELSE IF hdr \in {"current", "sep"} THEN PowLen ELSE 0
 \* k33: key identity -> the 33 bytes of its compressed encoding
 Consistent(inp, s, k33) ==
     /\ inp.plat \in {"ledger", "sgx"}
     /\ inp.pow.hdr \in {"current", "legacy", "foreign", "sep", "sepleg"}
-    /\ inp.pow.len \in {"exact", "short", "long"}
-    /\ PowHdrIs(inp.pow.hdr, s.pow) /\ PowLenIs(inp, s.pow)
+    /\ ExtIs(inp.pow, s.pow, PowFormatLen(inp.pow.hdr))
+    /\ LET c == Core(inp.pow, s.pow) IN
+          /\ PowHdrIs(inp.pow.hdr, c)
+          /\ inp.pow.hdr \in {"current", "sep"} => SepIs(inp.pow.sepc, c[9])
+          /\ inp.pow.hdr \in {"legacy", "sepleg"} => SepIs(inp.pow.sepc, c[13])
     /\ inp.plat = "ledger" =>
-          /\ UiHdrIs(inp.ui.hdr, s.ui) /\ Len(s.ui) = UiLen
-          /\ inp.ui.key \in DOMAIN k33 /\ UiKey(s.ui) = k33[inp.ui.key]
+          /\ ExtIs(inp.ui, s.ui, UiLen)
+          /\ LET c == Core(inp.ui, s.ui) IN
+                /\ UiHdrIs(inp.ui.hdr, c)
+                /\ inp.ui.hdr \in {"ok", "sep"} => SepIs(inp.ui.sepc, c[9])
+                /\ inp.ui.key \in DOMAIN k33
+                /\ Len(c) >= 75 => UiKey(c) = k33[inp.ui.key]
     /\ inp.plat = "sgx" => Len(s.quote) = QuoteLen
 =============================================================================
